@@ -267,12 +267,24 @@ func idForms() int {
 				name string
 				mk   func() (jsonrpc2.Message, error)
 				what string // "call" | "response"
+				// for responses: the result that must be read back ("" = none) and part of the error message ("" = no error)
+				result, errText string
 			}
 			forms := []mspec{
-				{"call", func() (jsonrpc2.Message, error) { return jsonrpc2.NewCall(is.id, "m/x", map[string]int{"a": 1}) }, "call"},
-				{"call without params", func() (jsonrpc2.Message, error) { return jsonrpc2.NewCall(is.id, "m/y", nil) }, "call"},
-				{"result response", func() (jsonrpc2.Message, error) { return jsonrpc2.NewResponse(is.id, map[string]bool{"ok": true}, nil) }, "response"},
-				{"error response", func() (jsonrpc2.Message, error) { return jsonrpc2.NewResponse(is.id, nil, errors.New("boom")) }, "response"},
+				{"call", func() (jsonrpc2.Message, error) { return jsonrpc2.NewCall(is.id, "m/x", map[string]int{"a": 1}) }, "call", "", ""},
+				{"call without params", func() (jsonrpc2.Message, error) { return jsonrpc2.NewCall(is.id, "m/y", nil) }, "call", "", ""},
+				{"result response", func() (jsonrpc2.Message, error) { return jsonrpc2.NewResponse(is.id, map[string]bool{"ok": true}, nil) }, "response", `{"ok":true}`, ""},
+				{"error response", func() (jsonrpc2.Message, error) { return jsonrpc2.NewResponse(is.id, nil, errors.New("boom")) }, "response", "", "boom"},
+				// what a handler replies that keeps its error in a variable of the concrete type: a nil *Error inside a
+				// non-nil error interface is no error, the result is what the caller gets
+				{"result response whose error is a nil *jsonrpc2.Error", func() (jsonrpc2.Message, error) {
+					var rpcErr *jsonrpc2.Error
+					return jsonrpc2.NewResponse(is.id, map[string]bool{"ok": true}, rpcErr)
+				}, "response", `{"ok":true}`, ""},
+				{"error response with a wrapped *jsonrpc2.Error", func() (jsonrpc2.Message, error) {
+					return jsonrpc2.NewResponse(is.id, nil, fmt.Errorf("handler: %w", jsonrpc2.NewError(jsonrpc2.InvalidParams, "bad params")))
+				}, "response", "", "bad params"},
+				{"response with null result", func() (jsonrpc2.Message, error) { return jsonrpc2.NewResponse(is.id, nil, nil) }, "response", "null", ""},
 			}
 			for _, f := range forms {
 				n++
@@ -333,6 +345,16 @@ func idForms() int {
 					if gotWhat != f.what || gotID == nil || *gotID != is.id {
 						run.Violation("id-forms", fmt.Sprintf("%s: %s with id %s is read back as a %s with id %v", kind, f.name, is.json, gotWhat, gotID), replay)
 						break
+					}
+					if resp, ok := got.(*jsonrpc2.Response); ok {
+						res, rerr := strings.TrimSpace(string(resp.Result())), resp.Err()
+						if res == "" && f.result == "null" {
+							res = "null" // a null result and an absent one are the same answer
+						}
+						if res != f.result || (rerr == nil) != (f.errText == "") || (rerr != nil && !strings.Contains(rerr.Error(), f.errText)) {
+							run.Violation("id-forms", fmt.Sprintf("%s: %s with id %s is read back with result %q and error %v, written with result %q and error text %q", kind, f.name, is.json, res, rerr, f.result, f.errText), replay)
+							break
+						}
 					}
 					if nx, _, err := rs.Read(ctx); err != nil {
 						run.Violation("id-forms", fmt.Sprintf("%s: the message after a %s with id %s cannot be read (chunks of %d): %v", kind, f.name, is.json, fix, err), replay)
